@@ -34,11 +34,13 @@ type muCore struct {
 	locked  bool
 	readers int
 	vc      vclock
+	hist    uint64
 }
 
 type wgCore struct {
-	n  int
-	vc vclock
+	n    int
+	vc   vclock
+	hist uint64
 }
 
 // LockOp etc. are used by the sync shim package.
@@ -71,6 +73,8 @@ func (m *Mu) Unlock() {
 		panic("sync: unlock of unlocked mutex")
 	}
 	m.core.locked = false
+	m.core.hist = mix(m.core.hist, e.cur.hist)
+	e.cur.hist = mix(e.cur.hist, 1004)
 	m.core.vc.join(e.cur.vc)
 	e.cur.vc.tick(e.cur.id)
 }
@@ -94,6 +98,7 @@ func (m *Mu) RUnlock() {
 		return
 	}
 	m.core.readers--
+	m.core.hist = mix(m.core.hist, e.cur.hist)
 	m.core.vc.join(e.cur.vc)
 	e.cur.vc.tick(e.cur.id)
 }
@@ -162,6 +167,7 @@ func (w *WG) Add(n int) {
 	}
 	w.core.n += n
 	if n < 0 {
+		w.core.hist = mix(w.core.hist, e.cur.hist)
 		w.core.vc.join(e.cur.vc)
 		e.cur.vc.tick(e.cur.id)
 	}
